@@ -30,6 +30,8 @@ pub fn norm(t: &LibBi) -> BTreeMap<(isize, isize), (usize, Vec<BigInt>)> {
     t.iter().map(|(k, (r, ts))| { let mut v: Vec<BigInt> = ts.iter().map(|x| BigInt::from(x.magnitude().clone())).collect(); v.sort(); (*k, (*r, v)) }).collect()
 }
 
+fn pure_base_only(d: &Dg) -> bool { d.x.iter().all(|x| x.0 == CT::X) }
+
 fn run_case(c: &Case, tier: Tier) -> Chk<Pass> {
     let b = match build_iso(&c.iso) { Ok(b) => b, Err(e) => return discard(format!("diagram-build: {e}")) };
     let (cap_b, cap_m) = tier.pick((9usize, 16usize), (11usize, 20usize));
@@ -56,6 +58,21 @@ fn run_case(c: &Case, tier: Tier) -> Chk<Pass> {
     if b.base.x.iter().all(|x| x.0 == CT::X) && b.base.ncross() > 0 {
         let m2 = norm(&table(&b.base.mirror_pd().map_err(Bad::Fail)?, c.ring, reduced, threads).map_err(ovf)?);
         ensure!(m2 == want, "{what}: mirror image given as a PD code has table {:?}, expected {:?}", m2, want);
+    }
+    // closed-braid bases: the library's own Braid::closure of the word before and after the braid moves
+    if let Some(((n0, w0), (n1, w1))) = &b.words {
+        use yui_link::{Braid, Generator};
+        let lc = |n: usize, w: &Vec<i32>| -> Result<Dg, String> { guard(|| { let l = Braid::new(n, w.iter().map(|x| Generator::from(*x)).collect()).closure(); Dg::from_pd(&l.data().iter().map(|x| *x.edges()).collect::<Vec<_>>()) }) };
+        let (c0, c1) = (lc(*n0, w0).map_err(|m| Bad::Fail(format!("{what}: Braid::closure panicked: {m}")))?, lc(*n1, w1).map_err(|m| Bad::Fail(format!("{what}: Braid::closure panicked: {m}")))?);
+        if c0.ncross() <= cap_m && c1.ncross() <= cap_m {
+            let reduced_b = reduced;
+            let u0 = norm(&table(&c0, c.ring, reduced_b, threads).map_err(ovf)?);
+            let u1 = norm(&table(&c1, c.ring, reduced_b, threads).map_err(ovf)?);
+            ensure!(u0 == u1, "{what}: Braid::closure of {:?} and of the moved word {:?} have different Khovanov homology:\n  {:?}\n  {:?}", w0, w1, u0, u1);
+            // the reduced theory of a link depends on the marked component, so the comparison with the harness's own closure is unreduced or for knots
+            let tb = if pure_base_only(&b.base) { norm(&table(&b.base, c.ring, reduced_b, threads).map_err(ovf)?) } else { u0.clone() };
+            ensure!(u0 == tb, "{what}: Braid::closure of {:?} has Khovanov homology {:?}, the harness's own closure of the same word {:?}", w0, u0, tb);
+        }
     }
     let tors = t0.values().any(|v| !v.1.is_empty());
     Ok(Pass::new().nt(b.r23_moves > 0 || b.kinks > 0 || tors).label(format!("ring:{:?}", c.ring)).label_if(b.r23_moves > 0, "R2/R3/Markov-move").label_if(b.kinks > 0, "R1-kink")
